@@ -98,9 +98,10 @@ def cases(tier):
             d["id"], d["what"], d["base"] = "twin/C04/" + c["id"], "twin", "C04"
             out.append(d)
     for k, c in enumerate(C06.cases("quick")):
-        if c["id"].startswith("two/C-ps[p1,c0,p0]-V") and tier == "quick":
+        if (c["id"].startswith("two/C-ps[p1,c0,p0]-V") or c["id"].startswith("two/C-envPF+own")) and tier == "quick":
             continue  # 4-5 minutes with contraction on; thorough tier
-        if k % stride == 2 and c["fam"] != "sym2" and not has_matrix(c):
+        if k % stride == 2 and c["fam"] not in ("sym2", "mix3") and not has_matrix(c):
+            # (mix3: three operators - with contraction on, the purity test of the result takes 5-15 minutes per case)
             d = _with_contraction(c)
             d["id"], d["what"], d["base"] = "twin/C06/" + c["id"], "twin", "C06"
             out.append(d)
